@@ -28,6 +28,7 @@ RULE = (
 RULE += '; a disposable may yield exactly one state object that is falsy'
 RULE += '; body outcomes include a falsy exception instance; disposables may fail with a non-Exception BaseException'
 RULE += '; disposables may compare equal to each other'
+RULE += '; a disposable may raise its own CancelledError from its exit'
 LEVEL_TEXT = (
     "Fault enumeration: the disposable behaviour space is enumerated completely for <=2 disposables (thorough) and "
     "sampled for 3-4; for cancelled bodies every loop iteration is a crash point. The oracle is the doubles' call ledger: "
@@ -93,6 +94,10 @@ def contains(exc, target, seen=None) -> bool:
         return False
     seen.add(id(exc))
     if exc is target:
+        return True
+    # a CancelledError that ends a task is re-created by asyncio on its way out of that task (disposables run in tasks of
+    # their own): a disposable's own CancelledError reaches the caller as A CancelledError, not as the same object
+    if isinstance(target, asyncio.CancelledError) and isinstance(exc, asyncio.CancelledError):
         return True
     if isinstance(exc, BaseExceptionGroup) and any(contains(e, target, seen) for e in exc.exceptions):
         return True
@@ -309,7 +314,7 @@ def _disp_strategy():
         st.just({"b": "raise_base"}),
     )
     mostly_ok = st.one_of(st.just({"b": "ok"}), st.just({"b": "ok"}), beh)
-    exit_beh = st.one_of(beh, beh, beh, st.just({"b": "ok", "ret": True}))
+    exit_beh = st.one_of(beh, beh, beh, st.just({"b": "ok", "ret": True}), st.just({"b": "raise_cancelled"}))
     return st.builds(
         lambda e, y, x, a, tw: {"enter": e, "yields": y, "exit": x, "as": a, "twin": tw},
         # also a single state whose instance is FALSY, yielded directly (not wrapped in a list)
